@@ -40,7 +40,7 @@ def make_alg(name, problem, n=5, g=2):
     return alg
 
 
-def two_obj_problem(bounds=None, dim=2):
+def two_obj_problem(bounds=None, dim=2, criteria=('minimize', 'minimize')):
     bounds = bounds or [[0.0, 4.0]] * dim
     dim = len(bounds)
 
@@ -48,7 +48,7 @@ def two_obj_problem(bounds=None, dim=2):
         x = ind.vector
         return [round(abs(x[0]), 1), round(abs(x[-1] - 1.0) + 0.5 * abs(x[0] - 2.0), 1)]
     return absx.make_problem(dim, bounds=bounds, evaluate=f,
-                             costs=[{'name': 'f_1', 'criteria': 'minimize'}, {'name': 'f_2', 'criteria': 'minimize'}])
+                             costs=[{'name': 'f_1', 'criteria': criteria[0]}, {'name': 'f_2', 'criteria': criteria[1]}])
 
 
 def project_members(members):
@@ -238,7 +238,9 @@ class Bests(Part):
         from artap.individual import Individual
         rng = pyrandom.Random(case["cseed"])
         pyrandom.seed(case["cseed"])
-        alg = make_alg(case["alg"], two_obj_problem(), n=case.get("n", 5), g=case.get("g", 2))
+        # whole runs and leader scripts also on problems that maximise an objective (signed costs differ from the raw ones)
+        crit = [('minimize', 'minimize'), ('minimize', 'maximize'), ('maximize', 'minimize')][case.get("cseed", 0) % 3]
+        alg = make_alg(case["alg"], two_obj_problem(criteria=crit), n=case.get("n", 5), g=case.get("g", 2))
         if case["kind"] == "best":
             maps = [absx.monotone_map(rng, 3) for _ in range(2)]
             mstyle = rng.randrange(3)
@@ -306,6 +308,23 @@ class Bests(Part):
                     continue          # identical costs: replacement is not observable through values
                 follows = (list(p.features['best_vector']) == list(p.vector)) if replaced else (list(p.features['best_vector']) == list(ov))
                 trace.append({"ev": "best", "new": new, "old": old, "replaced": bool(replaced), "vector_follows": bool(follows), "exc": ""})
+        orig_init = alg.init_pbest
+
+        def init(population):
+            orig_init(population)
+            for p in population:
+                bc, cs = p.features['best_cost'], p.costs_signed
+                ev = {"ev": "firstbest", "cur": {"c": 0, "m": 0}, "best": {"c": 0, "m": 0}, "same_length": False, "vector_same": False, "exc": ""}
+                try:
+                    ev["same_length"] = len(bc) == len(cs)
+                    ranks = absx.dense_ranks([list(cs[:-1]), list(bc[:len(cs) - 1])])
+                    ev["cur"] = {"c": ranks[0], "m": absx.abstract_marker(cs[-1])}
+                    ev["best"] = {"c": ranks[1], "m": absx.abstract_marker(bc[-1])}
+                    ev["vector_same"] = list(p.features['best_vector']) == list(p.vector)
+                except Exception as e:      # noqa
+                    ev["exc"] = "%s: %s" % (type(e).__name__, e)
+                trace.append(ev)
+        alg.init_pbest = init
         alg.update_global_best, alg.update_particle_best = gb, pb
         alg.run()
         trace.append({"ev": "leaders", "n": alg.options['max_population_size'], "members": project_members(list(alg.leaders)), "exc": ""})
